@@ -29,7 +29,7 @@ def run_shard(mod, ctx):
         res.notes['in_process_interference_before_workload'] = 'done' if warmed else 'raised (ignored)'
         if os.environ.get('VERIF_FLAVOUR'):
             res.count('shards_under_' + os.environ['VERIF_FLAVOUR'].replace(' ', '_').replace('-', ''))
-            if __debug__:
+            if __debug__ and 'O' in os.environ['VERIF_FLAVOUR'].split()[-1] and 'W' not in os.environ['VERIF_FLAVOUR']:
                 res.inconclusive.append('the optimised-interpreter shard ran with __debug__ set')
     except core.Inconclusive as e:
         res = core.Result()
@@ -52,12 +52,15 @@ def run_sharded(prop, tier, seed, nshards, timeout):
     # machine the tool runs on.  Contract libraries switch themselves off there; the oracles of the checks do not.
     mod = load_prop(prop)
     if not getattr(mod, 'NO_OPTIMIZED_FLAVOUR', False):
-        for flag in (('-O',) if tier == 'quick' else ('-O', '-OO')):
+        # (-W error: the interpreter's warning policy - a DeprecationWarning from a call the library makes becomes an
+        # exception, as under PYTHONWARNINGS=error or a test suite's filterwarnings = error)
+        for flags in ((('-O',), ('-W', 'error')) if tier == 'quick' else (('-O',), ('-OO',), ('-W', 'error'))):
+            flag = ''.join(flags)
             out = os.path.join(tmpdir, f'shard0{flag}.json')
-            cmd = [sys.executable, flag, '-m', 'vlib.main', prop, tier, '--shard', '0', str(nshards), '--out', out]
-            env = dict(os.environ, VERIF_SEED=str(seed), VERIF_FLAVOUR=f'python {flag}')
-            procs.append((f'0 under python {flag}', out, subprocess.Popen(cmd, env=env, stdout=subprocess.PIPE,
-                                                                          stderr=subprocess.STDOUT)))
+            cmd = [sys.executable, *flags, '-m', 'vlib.main', prop, tier, '--shard', '0', str(nshards), '--out', out]
+            env = dict(os.environ, VERIF_SEED=str(seed), VERIF_FLAVOUR=f'python {" ".join(flags)}')
+            procs.append((f'0 under python {" ".join(flags)}', out, subprocess.Popen(cmd, env=env, stdout=subprocess.PIPE,
+                                                                                       stderr=subprocess.STDOUT)))
     merged = core.Result()
     deadline = time.time() + timeout
     for i, out, p in procs:
@@ -157,6 +160,7 @@ def main(argv):
         k = argv.index('--shard')
         shard, nshards = int(argv[k + 1]), int(argv[k + 2])
         out = argv[argv.index('--out') + 1]
+        os.environ['VERIF_SHARD'] = str(shard)
         ctx = core.Ctx(prop, tier, seed, shard, nshards)
         try:
             res = run_shard(mod, ctx)
